@@ -21,9 +21,12 @@ from props import solver_common as sc
 
 ID = 'C04'
 PROPS_FILE = 'Props/C04.v'
-MODEL_FILES = ['Solver/Solver.v', 'Solver/SolverF.v', 'Eval/Eval.v', 'Eval/EvalF.v']
+MODEL_FILES = ['Solver/Solver.v', 'Solver/SolverF.v', 'Eval/Eval.v', 'Eval/EvalF.v', 'Fortran/FSolve.v', 'Eval/EvalK2.v']
+PREAMBLE2 = em.PREAMBLE + 'Require Import Fsic.Fortran.FSem Fsic.Fortran.FSolve Fsic.Eval.EvalK2.\n'
 K_NAME = ('K_access (Eval.eval_pass / Eval.solve_seq_M on PrimFloat vs the real generated _evaluate, solve_t and solve of '
-          'parser-built models: values, status, iterations, outcome, hook events, access sequence of every pass)')
+          'parser-built models: values, status, iterations, outcome, hook events, access sequence of every pass; second engine: '
+          'Fortran/FSolve.w_solve_t vs the real FortranEngine.solve_t over gfortran-compiled code on every call that ends before '
+          'the compiled loop: infeasible period, bad min/max_iter, out-of-span offset, pre-existing non-finite values)')
 RULE = ('C01-grammar scripts (1-3 equations, lags/leads <= 3, parameters, errors, nested + - * / **, unary minus, max/min/abs, '
         'conditional expressions with and/or/not, exp/log, occasionally an indexed left-hand side) x span lengths '
         'LAGS+LEADS+1 .. +4 x (a) _evaluate(t) at every t in both spellings, wrapped ones included, (b) solve_t(t) at every '
@@ -561,27 +564,74 @@ def k_items(case, obs):
     return items
 
 
+def fortran_upfront(case, obs):
+    """decided on the INPUT alone: does FortranEngine.solve_t end before the compiled iteration loop is reached
+    (min_iter > max_iter, out-of-span offset, pre-existing non-finite check values, infeasible period)?  There the
+    wrapper model Fortran/FSolve.w_solve_t needs no equations and is compared in full (K, second engine)."""
+    if case['entry'] != 'solve_t':
+        return False
+    n, o = case['n'], case['opts']
+    p = _pos(case['t'], n)
+    if not 0 <= p < n:
+        return False
+    if o['min_iter'] > o['max_iter']:
+        return True
+    B = obs['before']
+    q = p + o['offset']
+    if o['offset'] != 0 and not 0 <= q < n:
+        return True
+    chk = [B[i][q] if (o['offset'] != 0 and i in obs['endo']) else B[i][p] for i in obs['check']]
+    if o['errors'] == 'raise' and any(_nonfinite(x) for x in chk):
+        return True
+    return not obs['lags'] <= p < n - obs['leads']
+
+
+def k_item_fortran(case, obs):
+    out = obs['out']
+    if out[0] == 'ret':
+        c_out = '(Ret %s)' % lib.cbool(out[1][0])
+    elif out[1] == 'SolutionError':
+        c_out = '(Raise (SolutionError %s))' % ('None' if out[2] is None else '(Some 99)')
+    else:
+        c_out = '(Raise %s)' % {'FortranEngineError': 'FortranEngineError'}.get(out[1], sc.EXN.get(out[1], 'OtherError'))
+    fm = '(mkFmod %s %s %s)' % (lib.cZ(obs['lags']), lib.cZ(obs['leads']), lib.clist(lib.cZ(i + 1) for i in obs['endo']))
+    return '(KF (mkF %s %s %s %s %s %s %s))' % (
+        fm, _c_desc(obs), sc.c_opts(case['opts']), lib.cZ(case['t']),
+        _c_state(obs['before'], case['status0'], case['iters0'], []),
+        _c_state(obs['after'], obs['status'], obs['iters'], []), c_out)
+
+
 def correspond(cases, obs, tag, tier):
     items, owner, bad = [], [], []
     for i, (c, o) in enumerate(zip(cases, obs)):
-        if o.get('skip') or o.get('timeout') or o.get('engine') == 'fortran':
+        if o.get('skip') or o.get('timeout'):
             continue
         if c['opts']['errors'] not in sc.ERRMODES:
+            continue
+        if o.get('engine') == 'fortran':
+            if fortran_upfront(c, o):
+                items.append(k_item_fortran(c, o))
+                owner.append(i)
             continue
         its = k_items(c, o)
         if its is None:
             bad.append(i)          # an access with a non-integer index: outside the model altogether
             continue
         for it in its:
-            items.append(it)
+            items.append('(K1 %s)' % it)
             owner.append(i)
-    b, errs = lib.run_coq_cases(tag, em.PREAMBLE, items, 'bad_indices check_kcase 0%nat cs', shard=250)
+    b, errs = lib.run_coq_cases(tag, PREAMBLE2, items, 'bad_indices check_kcase2 0%nat cs', shard=250)
     return sorted(set(bad) | {owner[j] for j in b}), errs
 
 
 def explain(case, obs):
     if obs.get('skip'):
         return 'skipped: ' + obs['skip']
+    if obs.get('engine') == 'fortran':
+        if not fortran_upfront(case, obs):
+            return 'Fortran engine, call reaches the compiled loop: oracle only (the equations are not translated for this engine)'
+        body = k_item_fortran(case, obs)[4:-1]
+        return lib.coq_eval('explain_C04', PREAMBLE2, 'let c := %s in (F_w_solve_t (f_fm c) (f_desc c) (f_opts c) (f_t c) (f_state c))' % body)[-2500:]
     its = k_items(case, obs) or []
     out = []
     for it in its[-2:]:
@@ -607,6 +657,12 @@ def guard(case, obs):
     """guard class of kept finding #3 (offset copy before the pre-existing non-finite rejection): K is silent there"""
     if obs.get('skip') or case['entry'] == 'evaluate':
         return False
+    if obs.get('engine') == 'fortran' and case['entry'] == 'solve_t' and case['opts']['offset'] != 0:
+        # second kept finding: FortranEngine.solve_t copies the offset period before the compiled feasibility test
+        n = case['n']
+        p = _pos(case['t'], n)
+        if 0 <= p < n and 0 <= p + case['opts']['offset'] < n and not obs['lags'] <= p < n - obs['leads'] and obs['out'][0] == 'raise':
+            return True
     return case['opts']['offset'] != 0 and case['opts']['errors'] == 'raise' and obs['out'][0] == 'raise' \
         and obs['out'][1] == 'SolutionError' and not obs['events']
 
